@@ -1224,3 +1224,297 @@ func ruleEarlyRegexp(c *Ctx, r *R) {
 		r.check(reported, key, c.Pos(instrPos(call)), want.why+" and its error is reported", fmt.Sprintf("the error returned by %s is not reported through p.error on the failing side: the invalid literal parses", want.name))
 	}
 }
+
+// ---- SIB-length-put ----------------------------------------------------------------------------------------------------
+
+func init() {
+	register(&Rule{ID: "SIB-length-put", Props: []string{"C08"}, Min: 5,
+		Doc: "P (sibling agreement, ES5 §15.4.4.6 steps 4.a/5.d, §15.4.4.7 step 6, §15.4.4.9 steps 4.a/9, §15.4.4.12 step 16, §15.4.4.13 step 10): the five length-changing Array.prototype methods (pop push shift splice unshift) end every path with [[Put]](\"length\", n, true) on the receiver - also the paths on which nothing moves (empty receiver, no items). The put is what normalises an array-like's length, and what throws for a frozen / non-writable length",
+		Run: ruleSibLengthPut})
+}
+
+func ruleSibLengthPut(c *Ctx, r *R) {
+	arr := c.Shape().boundSSA(c, "Array.prototype")
+	for _, name := range []string{"pop", "push", "shift", "splice", "unshift"} {
+		fn := arr[name]
+		if fn == nil {
+			r.undecided("unresolved:"+name, "-", "UNRESOLVED: Array.prototype."+name+" is not bound")
+			continue
+		}
+		isLengthPut := func(ins ssa.Instruction) bool {
+			call, ok := ins.(*ssa.Call)
+			if !ok {
+				return false
+			}
+			callee := call.Call.StaticCallee()
+			if callee == nil || callee.Name() != "put" || callee.Signature.Recv() == nil || !typeIs(callee.Signature.Recv().Type(), ottoPath, "object") || len(call.Call.Args) != 4 {
+				return false
+			}
+			k, ok := call.Call.Args[1].(*ssa.Const)
+			if !ok {
+				return false
+			}
+			if s, isStr := constStringVal(k); !isStr || s != "length" {
+				return false
+			}
+			thr, ok := call.Call.Args[3].(*ssa.Const)
+			return ok && thr.Value != nil && thr.Value.ExactString() == "true"
+		}
+		var bad ssa.Instruction
+		seen := map[*ssa.BasicBlock]bool{}
+		var dfs func(b *ssa.BasicBlock)
+		dfs = func(b *ssa.BasicBlock) {
+			if seen[b] {
+				return
+			}
+			seen[b] = true
+			for _, ins := range b.Instrs {
+				if isLengthPut(ins) {
+					return
+				}
+				if _, ok := ins.(*ssa.Return); ok && bad == nil {
+					bad = ins
+				}
+			}
+			for _, s := range b.Succs {
+				dfs(s)
+			}
+		}
+		dfs(fn.Blocks[0])
+		key := "Array.prototype." + name
+		if bad == nil {
+			r.ok(key, c.Pos(fn.Pos()), "every return is preceded by put(\"length\", n, true)")
+		} else {
+			r.bad(key, c.Pos(instrPos(bad)), fmt.Sprintf("Array.prototype.%s can return without [[Put]](\"length\", n, true) on its receiver: on that path an array-like keeps a missing or un-normalised length and a frozen array is not rejected with a TypeError", name))
+		}
+	}
+}
+
+// ---- SPEC-canput-order, SIB-integrity ----------------------------------------------------------------------------------
+
+func init() {
+	register(&Rule{ID: "SPEC-canput-order", Props: []string{"C07"}, Min: 2,
+		Doc: "P (ES5 §8.12.4 [[CanPut]] steps 3-8): the [[Extensible]] flag decides only where the algorithm consults it - when the prototype is null (step 4), when no property is inherited (step 6) and when the inherited property is a data property (step 8.a). In the [[CanPut]] implementation every read of object.extensible is therefore dominated either by the prototype-is-nil outcome or by the inherited lookup (prototype.getProperty): consulting it earlier makes a non-extensible object refuse a put that an inherited setter must receive (step 7)",
+		Run: ruleSpecCanPutOrder})
+	register(&Rule{ID: "SIB-integrity", Props: []string{"C07"}, Min: 14,
+		Doc: "T (sibling agreement, ES5 §15.2.3.8-13): the six integrity functions touch exactly the attributes their algorithm names. freeze: clears [[Writable]] and [[Configurable]], redefines, clears [[Extensible]]; seal: clears [[Configurable]] only; preventExtensions: clears [[Extensible]] only; isFrozen reads writable, configurable and extensible; isSealed reads configurable and extensible but not writable; isExtensible reads extensible. In freeze, clearing [[Writable]] is not conditional on the property being configurable (and vice versa): §15.2.3.9 steps 2.a-2.c are independent",
+		Run: ruleSibIntegrity})
+}
+
+func ruleSpecCanPutOrder(c *Ctx, r *R) {
+	impls := slotImplsOf(c)["canPut"]
+	if len(impls) == 0 {
+		r.undecided("unresolved:canPut", "-", "UNRESOLVED: no canPut slot implementation")
+		return
+	}
+	// functions reachable by static calls (depth 2) from the canPut implementations that read object.extensible
+	cands := map[*ssa.Function]bool{}
+	var walk func(fn *ssa.Function, d int)
+	walk = func(fn *ssa.Function, d int) {
+		if fn == nil || fn.Blocks == nil || d > 2 {
+			return
+		}
+		for _, b := range fn.Blocks {
+			for _, ins := range b.Instrs {
+				if ld, ok := ins.(*ssa.UnOp); ok && ld.Op == token.MUL && isFieldAddr(ld.X, "object", "extensible") {
+					cands[fn] = true
+				}
+				if call, ok := ins.(*ssa.Call); ok {
+					if callee := call.Call.StaticCallee(); callee != nil && callee.Pkg != nil && callee.Pkg.Pkg.Path() == ottoPath && callee.Signature.Recv() == nil {
+						walk(callee, d+1)
+					}
+				}
+			}
+		}
+	}
+	for _, fn := range impls {
+		walk(fn, 0)
+	}
+	if len(cands) == 0 {
+		r.undecided("unresolved:extensible", "-", "UNRESOLVED: the [[CanPut]] implementation never reads object.extensible")
+		return
+	}
+	for fn := range cands {
+		// anchors: the inherited lookup, and the prototype == nil test
+		var lookups []ssa.Instruction
+		var nilEdges []*ssa.BasicBlock // blocks entered only when prototype == nil
+		for _, b := range fn.Blocks {
+			for _, ins := range b.Instrs {
+				if call, ok := ins.(*ssa.Call); ok {
+					if callee := call.Call.StaticCallee(); callee != nil && callee.Name() == "getProperty" && len(call.Call.Args) > 0 {
+						if a := loadAddr(call.Call.Args[0]); a != nil && isFieldAddr(a, "object", "prototype") {
+							lookups = append(lookups, call)
+						}
+					}
+				}
+			}
+			if iff, ok := b.Instrs[len(b.Instrs)-1].(*ssa.If); ok {
+				if cmp, ok := iff.Cond.(*ssa.BinOp); ok && (cmp.Op == token.EQL || cmp.Op == token.NEQ) {
+					var other ssa.Value
+					if isNilConst(cmp.Y) {
+						other = cmp.X
+					} else if isNilConst(cmp.X) {
+						other = cmp.Y
+					}
+					if other != nil {
+						if a := loadAddr(other); a != nil && isFieldAddr(a, "object", "prototype") {
+							side := 0
+							if cmp.Op == token.NEQ {
+								side = 1
+							}
+							if s := b.Succs[side]; len(s.Preds) == 1 {
+								nilEdges = append(nilEdges, s)
+							}
+						}
+					}
+				}
+			}
+		}
+		if len(lookups) == 0 {
+			r.undecided("unresolved:"+ssaFuncName(fn)+":lookup", c.Pos(fn.Pos()), "UNRESOLVED: no inherited lookup obj.prototype.getProperty(...) in the [[CanPut]] implementation")
+			continue
+		}
+		n := 0
+		for _, b := range fn.Blocks {
+			for _, ins := range b.Instrs {
+				ld, ok := ins.(*ssa.UnOp)
+				if !ok || ld.Op != token.MUL || !isFieldAddr(ld.X, "object", "extensible") {
+					continue
+				}
+				n++
+				okDom := false
+				for _, l := range lookups {
+					if dominatesInstr(l, ld) {
+						okDom = true
+					}
+				}
+				for _, e := range nilEdges {
+					if e.Dominates(ld.Block()) {
+						okDom = true
+					}
+				}
+				key := fmt.Sprintf("%s:extensible", ssaFuncName(fn))
+				r.check(okDom, key, c.Pos(instrPos(ld)), "read after the inherited lookup or under prototype == nil", "§8.12.4: object.extensible is read before the inherited property has been looked up (and not under prototype == nil): a non-extensible (sealed, frozen) object then answers from the flag although an inherited accessor's setter must decide (step 7)")
+			}
+		}
+	}
+}
+
+func ruleSibIntegrity(c *Ctx, r *R) {
+	fns := c.Shape().boundSSA(c, "Object")
+	type facts struct {
+		calls       map[string][]*ssa.Call
+		extStore    bool
+		extStoreVal string
+		extLoad     bool
+	}
+	collect := func(fn *ssa.Function) *facts {
+		f := &facts{calls: map[string][]*ssa.Call{}}
+		for _, g := range withAnon(fn) {
+			for _, b := range g.Blocks {
+				for _, ins := range b.Instrs {
+					switch x := ins.(type) {
+					case *ssa.Call:
+						if callee := x.Call.StaticCallee(); callee != nil && callee.Signature.Recv() != nil {
+							if typeIs(callee.Signature.Recv().Type(), ottoPath, "property") || callee.Name() == "defineOwnProperty" {
+								f.calls[callee.Name()] = append(f.calls[callee.Name()], x)
+							}
+						}
+					case *ssa.Store:
+						if isFieldAddr(x.Addr, "object", "extensible") {
+							f.extStore = true
+							if k, ok := x.Val.(*ssa.Const); ok && k.Value != nil {
+								f.extStoreVal = k.Value.ExactString()
+							}
+						}
+					case *ssa.UnOp:
+						if x.Op == token.MUL && isFieldAddr(x.X, "object", "extensible") {
+							f.extLoad = true
+						}
+					}
+				}
+			}
+		}
+		return f
+	}
+	type spec struct {
+		must, mustNot []string
+		clearsExt     bool
+		readsExt      bool
+		clause        string
+	}
+	table := map[string]spec{
+		"freeze":            {[]string{"writeOff", "configureOff", "defineOwnProperty"}, nil, true, false, "§15.2.3.9"},
+		"seal":              {[]string{"configureOff", "defineOwnProperty"}, []string{"writeOff"}, true, false, "§15.2.3.8"},
+		"preventExtensions": {nil, []string{"writeOff", "configureOff", "defineOwnProperty"}, true, false, "§15.2.3.10"},
+		"isFrozen":          {[]string{"writable", "configurable"}, []string{"writeOff", "configureOff", "defineOwnProperty"}, false, true, "§15.2.3.12"},
+		"isSealed":          {[]string{"configurable"}, []string{"writable", "writeOff", "configureOff", "defineOwnProperty"}, false, true, "§15.2.3.11"},
+		"isExtensible":      {nil, []string{"writeOff", "configureOff", "defineOwnProperty"}, false, true, "§15.2.3.13"},
+	}
+	for _, name := range sortedKeys(table) {
+		sp := table[name]
+		fn := fns[name]
+		if fn == nil {
+			r.undecided("unresolved:Object."+name, "-", "UNRESOLVED: Object."+name+" is not bound")
+			continue
+		}
+		f := collect(fn)
+		site := c.Pos(fn.Pos())
+		for _, m := range sp.must {
+			r.check(len(f.calls[m]) > 0, "Object."+name+":"+m, site, "uses "+m, fmt.Sprintf("%s: Object.%s never calls %s", sp.clause, name, m))
+		}
+		for _, m := range sp.mustNot {
+			if len(f.calls[m]) > 0 {
+				r.bad("Object."+name+":not:"+m, c.Pos(instrPos(f.calls[m][0])), fmt.Sprintf("%s: Object.%s calls %s, which its algorithm does not touch", sp.clause, name, m))
+			}
+		}
+		if sp.clearsExt {
+			r.check(f.extStore && f.extStoreVal == "false", "Object."+name+":extensible=false", site, "clears [[Extensible]]", fmt.Sprintf("%s: Object.%s does not set object.extensible to false", sp.clause, name))
+		} else {
+			r.check(!f.extStore, "Object."+name+":no-extensible-store", site, "does not write [[Extensible]]", fmt.Sprintf("%s: Object.%s writes object.extensible; a query must not", sp.clause, name))
+		}
+		if sp.readsExt {
+			r.check(f.extLoad, "Object."+name+":reads-extensible", site, "reads [[Extensible]]", fmt.Sprintf("%s: Object.%s never reads object.extensible", sp.clause, name))
+		}
+	}
+	// freeze: the two attribute clearings are independent
+	if fn := fns["freeze"]; fn != nil {
+		f := collect(fn)
+		dep := func(effect, test string) (bool, ssa.Instruction) {
+			for _, e := range f.calls[effect] {
+				for _, t := range f.calls[test] {
+					if t.Parent() != e.Parent() {
+						continue
+					}
+					for _, ref := range *t.Referrers() {
+						iff, ok := ref.(*ssa.If)
+						if !ok {
+							continue
+						}
+						for _, s := range iff.Block().Succs {
+							if len(s.Preds) == 1 && s.Dominates(e.Block()) {
+								return true, e
+							}
+						}
+					}
+				}
+			}
+			return false, nil
+		}
+		d1, at1 := dep("writeOff", "configurable")
+		d2, at2 := dep("configureOff", "writable")
+		d3, at3 := dep("configureOff", "isDataDescriptor")
+		site := c.Pos(fn.Pos())
+		if d1 {
+			site = c.Pos(instrPos(at1))
+		}
+		r.check(!d1, "Object.freeze:writeOff-independent", site, "clearing [[Writable]] does not depend on configurable()", "§15.2.3.9 step 2.a: Object.freeze clears [[Writable]] only under a test of configurable(): a property that is already non-configurable but still writable (after Object.seal, or defineProperty with configurable:false) stays writable in a 'frozen' object")
+		site = c.Pos(fn.Pos())
+		if d2 {
+			site = c.Pos(instrPos(at2))
+		} else if d3 {
+			site = c.Pos(instrPos(at3))
+		}
+		r.check(!d2 && !d3, "Object.freeze:configureOff-independent", site, "clearing [[Configurable]] does not depend on the property being a writable data property", "§15.2.3.9 step 2.b: Object.freeze clears [[Configurable]] only for writable / data properties: accessors and read-only properties stay configurable")
+	}
+}
